@@ -10,6 +10,11 @@ CHECKS = {
         note="Trusted: as C01 plus the virtual-clock hook (feature verif_hooks) standing in for web_time::Instant. PARTIAL: aggregation / lattices are in the tie but not in the theorems; wall-clock behaviour of the real Instant is not modelled (it only selects which check fires).",
         technique="Coq proof (loop invariant at every exit + least-model interpolation) + correspondence under a deterministic virtual clock",
         ref="5/C14"),
+    "C15": dict(
+        text="Theorems (Coq, every program / violation position / macro kind / state of the process-wide name counters): acceptance is sound (check = Accept -> well-formed), rejection is complete with the detection order (parse < macro expansion < rules < program attributes < relation attributes < stratification) and sound (every reported error is a genuine violation of that class), a single-class violation is reported with exactly its class, stratification = reachability in the rule dependency graph, include_source deferral, a well-formed program is accepted unless the macro panics, panic freedom under a decidable guard, and the unguarded statement is refuted by the F9 witness (known finding). Tie: generated well-formed programs mutated by one (12%: two) of 14 violation classes under all four macros through the REAL ascent_impl in-process: model verdict = implementation verdict = injected class; a rustc sample confirms the error is reported at the program and covers the rustc-only classes (unknown attribute on a relation, recursive macros).",
+        note="Trusted: Coq kernel + VM; hand-written Gallina mirror of the parse / desugar / HIR / MIR decision logic and of the failing unwrap in codegen (tied, not verified); expressions opaque; macro bodies over parameters only; no disjunctions in the model; rustc diagnostics sampled. Known finding: fresh_ident name capture makes the macro panic on a well-formed program (F9).",
+        technique="Coq proof over an executable checker model with a declarative violation predicate + FRONT differential tie + rustc sample",
+        ref="5/C15"),
     "C16": dict(
         text="Theorems (Coq, by induction on the syntax of the shipped lattice types: all nestings, tuple/Product arities >= 1, array lengths, integer ranges, bounds, Ord element types): partial_cmp is a partial order, join = least upper bound, meet = greatest lower bound, hence commutative / associative / idempotent / absorbing and a <= b iff join = b iff meet = a; join_mut / meet_mut equal join / meet and the changed flag is exact; Dual and Reverse swap the operations; top / bottom extremal. The Gallina mirror of every impl is tied to ascent_base by differential runs on 73 concrete Rust types (exhaustive pairs / triples over small carriers) — that half is testing.",
         note="Trusted: Coq kernel + VM; the hand-written mirror Lattice/LatModel.v (tied, not verified); ds_lat and gen/props/c16.py renderers / law oracle; Rust std (BTreeSet, derived Option / tuple orders, Ord::min / max, Rc / Arc glue); integers as Z restricted to a range.",
@@ -45,6 +50,16 @@ CHECKS = {
         note="Trusted: as C01 plus the variant generator. PARTIAL: head-clause / independent-body-item permutation, alpha renaming and injective constant renaming are exercised by the tie but are not yet theorems.",
         technique="Coq proof (corollaries of the engine theorem) + metamorphic correspondence through the real macro",
         ref="5/C06"),
+    "C09": dict(
+        text="Theorems (Coq): after deduplication the struct has one field per relation name, from the LAST declaration — the one rules resolve to; ascent_run! (default value, initialisers, one index build, SCCs) = Default + run() = run() on exactly the initialisers' tuples, hence by C01 the least model over them; run_timeout(Duration::MAX) returns true and equals run() for every clock; the rule-time / scc-time wrappers and run_rule under segment-codegen leave rows and indices unchanged; the include_source re-invocation chain ends on exactly the pasted text for every token list and any number / position of includes (positional split; the old span-based split is refuted in Coq and was repaired by 9a74b6c); name resolution is transparent unless a source mentions a captured local (known finding: rejected by rustc, never a wrong result). Tie: every logical program in 17-22 real packagings (ascent! / ascent_run! / _par, include_source at start / middle / end / twice / through a re-spanning proc macro, initialisers, re-declarations, generic signatures, measure_rule_times, generate_run_timeout) x {segment-codegen off, on}; all relations = the specification oracle.",
+        note="Trusted: Coq kernel + VM; hand-written models of the packaging logic (tied end to end, not verified); rustc / macro_rules / span printing / cargo features are exercised, not modelled; generic signatures and par = serial are carried only by the tie; gen/c09_pack.py renderer.",
+        technique="Coq proofs over executable models of dedup / include splitting / run code paths + metamorphic correspondence through the real macros and rustc",
+        ref="5/C09"),
+    "C11": dict(
+        text="Theorems (Coq): the inner semi-naive merge loop of TrRelIndCommon terminates and computes the transitive closure; for every head-update-protocol history total + delta equals the transitive closure of the inserted tuples, pairs (x,x) implied by cycles included (unguarded since fix 2cd049f); provider laws P1-P5 (insert result, reads = closure, nothing reaches total without having been delta, views, contains); the ternary form lifts per key and its reverse-map views [1], [2], [1,2] of total AND delta never panic and return exactly the restriction of the version (since fixes 0ce9ae6, 72c0385); the pre-fix behaviours are kept as *_before_fix refutations on the model with the old parameters. Tie: histories insert* ; merge ; read every view (binary, ternary with / without reverse maps; acyclic, cyclic, self loops, several keys, pause / resume) real provider vs Coq model vs python closure + laws evaluated on the real answers; programs with a tagged relation vs the same program with the explicit closure rule through the real macro vs the specification oracle.",
+        note="Trusted: Coq kernel + VM; hand-written mirror of trrel_binary_ind / trrel_ternary_ind (tied, not verified); BinaryRel abstracted to its pair set; hash order not modelled; histories follow the head-update protocol; serial only (no parallel provider exists). The engine-level reading (C01 with the closure rule plugged in) is carried by the PROG half of the tie, not proved.",
+        technique="Coq proof over an executable model of the provider as written + three-way differential tie (provider / model / explicit closure; tagged vs explicit program)",
+        ref="5/C11"),
     "C13": dict(
         text="Theorems (Coq, programs without aggregation): a second run() on an unmodified program value leaves the rows unchanged (even their order); after pushing further facts into any relation, run() yields the relations of a fresh run on the union of all inputs; a run depends only on the rows (indices left by earlier runs are irrelevant). Tie: histories run;run / run;push;run;push;run / run(empty);push;run;run on positive and stratified programs, every snapshot compared with model and specification.",
         note="Trusted: as C01; Engine/Rerun.v models the program value between runs. PARTIAL: idempotence with aggregation / lattices is exercised by the tie, not yet a theorem. The defect that made aggregates double on a second run was repaired (fix commit 949309d).",
@@ -88,9 +103,9 @@ def main():
                    source_commits=HOOK_COMMITS, add_only=True),
         engines=[dict(name="coq", path="coq/", serves_properties=sorted(CHECKS), kind_free_text="Coq 8.16.1 development: executable Gallina models + theorems; property files coq/Props/Cxx.v"),
                  dict(name="ds_driver", path="harness/ds_driver", serves_properties=[i for i in sorted(CHECKS) if i in ("C17",)], kind_free_text="Rust driver running case tables against the real aggregators of /repo"),
-                 dict(name="ds_index / ds_lat / ds_uf", path="harness/", serves_properties=[i for i in sorted(CHECKS) if i in ("C16", "C18", "C19")], kind_free_text="Rust drivers running operation histories against the real index types, lattices and union-find structures"),
-                 dict(name="FRONT", path="/repo/ascent_macro/src/verif_hook.rs", serves_properties=[i for i in sorted(CHECKS) if i in ("C01", "C02", "C04", "C05", "C06", "C13", "C14", "C20")], kind_free_text="in-process front-end driver (cargo feature verif_hooks): runs the real ascent_impl passes on program texts and dumps the MIR plan"),
-                 dict(name="PROG", path="gen/prog.py", serves_properties=[i for i in sorted(CHECKS) if i in ("C01", "C02", "C04", "C05", "C06", "C13", "C14", "C20")], kind_free_text="generated crates of ascent programs compiled by rustc against /repo and run on embedded inputs / histories")],
+                 dict(name="ds_index / ds_lat / ds_uf", path="harness/", serves_properties=[i for i in sorted(CHECKS) if i in ("C11", "C16", "C18", "C19")], kind_free_text="Rust drivers running operation histories against the real index types, lattices and union-find structures"),
+                 dict(name="FRONT", path="/repo/ascent_macro/src/verif_hook.rs", serves_properties=[i for i in sorted(CHECKS) if i in ("C01", "C02", "C04", "C05", "C06", "C09", "C13", "C14", "C15", "C20")], kind_free_text="in-process front-end driver (cargo feature verif_hooks): runs the real ascent_impl passes on program texts and dumps the MIR plan"),
+                 dict(name="PROG", path="gen/prog.py", serves_properties=[i for i in sorted(CHECKS) if i in ("C01", "C02", "C04", "C05", "C06", "C09", "C11", "C13", "C14", "C15", "C20")], kind_free_text="generated crates of ascent programs compiled by rustc against /repo and run on embedded inputs / histories")],
         checks=checks, not_applicable=na,
         notes="Every check = (1) rebuild + audit of the Coq property file (Print Assumptions, forbidden vernacular, obligations==discharged) and (2) correspondence of the executable model with the implementation rebuilt from /repo's working tree. See DESIGN.md.")
     open(os.path.join(VERIF, "MANIFEST.json"), "w").write(json.dumps(man, indent=1) + "\n")
